@@ -1,4 +1,175 @@
-//! Sim D - CPU mask (placeholder until implemented).
-use crate::common::Ctx;
+//! Sim D - the CPU the code thinks it runs on (C14).
+//!
+//! Every run enumerates all four subsets of {avx2, ssse3} as the detection result (hook H2 can only
+//! narrow what the host really reports) and reads the ISA trace (hook H3) of a full encode + decode round
+//! of a codec built on `DefaultEngine`.
+
+use reed_solomon_simd::verif::{self, Trace, ISA_AVX2, ISA_NEON, ISA_SSSE3};
+use reed_solomon_simd::Error;
+use simcore::envelope::{self, Family};
+use simcore::prng::Prng;
 use simcore::Chooser;
-pub fn run_cpu(_ch: &mut Chooser, _ctx: &mut Ctx) {}
+
+use crate::codec::*;
+use crate::common::*;
+use crate::ev;
+use crate::oracles::*;
+
+const PRIMS: [&str; 4] = ["fft", "ifft", "mul", "eval_poly"];
+
+fn best_isa(mask: u32) -> Option<usize> {
+    if mask & verif::MASK_AVX2 != 0 && std::is_x86_feature_detected!("avx2") {
+        Some(ISA_AVX2)
+    } else if mask & verif::MASK_SSSE3 != 0 && std::is_x86_feature_detected!("ssse3") {
+        Some(ISA_SSSE3)
+    } else {
+        None
+    }
+}
+
+fn isa_name(i: usize) -> &'static str {
+    match i {
+        ISA_AVX2 => "avx2",
+        ISA_SSSE3 => "ssse3",
+        ISA_NEON => "neon",
+        _ => "?",
+    }
+}
+
+pub fn run_cpu(ch: &mut Chooser, ctx: &mut Ctx) {
+    let layer = Layer::ALL[ch.pick_usize("cpu.layer", 4)];
+    let fam = layer.family();
+    let scale = ch.weighted("cpu.scale", &[80, 20]) as u8;
+    let (k, r) = gen_counts(ch, fam, scale);
+    let b = gen_bytes(ch, 258);
+    let high = envelope::effective_high(fam, k, r);
+    let kind = Kind { layer, engine: EngineKind::Default };
+    let data_seed = ch.seed64("data.seed");
+    let originals: Vec<Vec<u8>> = (0..k).map(|i| gen_shard(data_seed, 0, i, b)).collect();
+    // loss pattern: lose up to r shards
+    let lose = 1 + ch.pick_usize("cpu.lose", r.min(k + r - 1));
+    let mut all: Vec<(bool, usize)> = (0..k).map(|i| (false, i)).chain((0..r).map(|j| (true, j))).collect();
+    let mut p = Prng::new(ch.seed64("cpu.lossseed"));
+    // make sure at least one original is lost so that decode really runs eval_poly
+    all.swap_remove(p.below(k as u64) as usize);
+    for _ in 1..lose.min(r) {
+        let at = p.below(all.len() as u64) as usize;
+        all.swap_remove(at);
+    }
+    ev!(ctx, "cpu-mask run: {} ({k},{r},{b}) {} rate, {} shards delivered", kind.name(), if high { "high" } else { "low" }, all.len());
+    ctx.arm_poison(ch.seed64("poison.seed"), 1);
+
+    let mut reference: Option<(Vec<Vec<u8>>, std::collections::BTreeMap<usize, Vec<u8>>)> = None;
+    // all four subsets, in a seeded order
+    let mut masks = [3u32, 2, 1, 0];
+    let rot = ch.pick_usize("cpu.maskorder", 4);
+    masks.rotate_left(rot);
+    for mask_bits in masks {
+        let mask = mask_bits | !3u32;
+        ctx.cpu_mask = mask;
+        let best = best_isa(mask);
+        let _ = verif::take_trace();
+        let out = ctx.guarded(true, || -> Result<(Vec<Vec<u8>>, std::collections::BTreeMap<usize, Vec<u8>>), Error> {
+            let mut enc = enc_new(kind, k, r, b, None)?;
+            for o in &originals {
+                enc.add(o)?;
+            }
+            let recovery: Vec<Vec<u8>> = enc.encode()?.recovery_iter().map(<[u8]>::to_vec).collect();
+            let mut dec = dec_new(kind, k, r, b, None)?;
+            for (is_rec, i) in &all {
+                if *is_rec {
+                    dec.add_recovery(*i, &recovery[*i])?;
+                } else {
+                    dec.add_original(*i, &originals[*i])?;
+                }
+            }
+            let restored = dec.decode()?.restored_original_iter().map(|(i, s)| (i, s.to_vec())).collect();
+            Ok((recovery, restored))
+        });
+        let trace: Trace = verif::take_trace();
+        ctx.cpu_mask = u32::MAX;
+        ctx.count("cpu.masked_rounds");
+        ctx.hash.feed_u64(u64::from(mask_bits));
+        let (recovery, restored) = match out {
+            Ok(Ok(v)) => v,
+            Ok(Err(e)) => {
+                ctx.viol(&["C14", "C06"], "verdict", format!("verdict/cpu/{}", err_name(&e)), format!("{}({k},{r},{b}) under CPU mask avx2={} ssse3={}: valid round returned Err({e:?})", kind.name(), mask_bits & 1, mask_bits >> 1 & 1), true);
+                return;
+            }
+            Err(msg) => {
+                ctx.viol(&["C14", "C06"], "no-panic", format!("panic/cpu/{}", panic_sig(&msg)), format!("{}({k},{r},{b}) under CPU mask avx2={} ssse3={} panicked: {msg}", kind.name(), mask_bits & 1, mask_bits >> 1 & 1), true);
+                return;
+            }
+        };
+        ev!(ctx, "  mask avx2={} ssse3={}: calls {:?} hits avx2 {:?} ssse3 {:?}", mask_bits & 1, mask_bits >> 1 & 1, trace.calls, trace.hits[ISA_AVX2], trace.hits[ISA_SSSE3]);
+        // executed ISAs are a subset of the reported ones and equal the best reported one, per primitive
+        for prim in 0..4 {
+            ctx.distinct(&[0xD1, u64::from(mask_bits), layer as u64, prim as u64, u64::from(high), u64::from(trace.calls[prim] > 0)]);
+            for isa in [ISA_AVX2, ISA_SSSE3, ISA_NEON] {
+                let hits = trace.hits[isa][prim];
+                let expect = if Some(isa) == best { trace.calls[prim] } else { 0 };
+                if hits != expect {
+                    let what = if hits > expect {
+                        if Some(isa) == best { "more entries than calls" } else if best.is_none() || isa_rank(isa) > best.map_or(0, isa_rank) { "executed code for a feature the CPU did not report" } else { "did not use the most capable reported feature" }
+                    } else {
+                        "did not use the most capable reported feature"
+                    };
+                    ctx.viol(
+                        &["C14"],
+                        "isa-trace",
+                        format!("isa/{}/{}/mask{}", PRIMS[prim], isa_name(isa), mask_bits),
+                        format!(
+                            "{}({k},{r},{b}) with reported features avx2={} ssse3={}: primitive {} was called {} times through DefaultEngine, entered {} code {} times (expected {}): {what}",
+                            kind.name(), mask_bits & 1, mask_bits >> 1 & 1, PRIMS[prim], trace.calls[prim], isa_name(isa), hits, expect
+                        ),
+                        false,
+                    );
+                    return;
+                }
+            }
+        }
+        if trace.calls[3] == 0 {
+            ctx.viol(&["C14"], "isa-trace", "isa/no-eval-poly".into(), "decode with a missing original did not evaluate the erasure locator through DefaultEngine".into(), false);
+            return;
+        }
+        // results identical under every subset, and right
+        match &reference {
+            None => {
+                let (mism, compared) = check_r1(high, k, r, &originals, &recovery, data_seed);
+                ctx.count_n("r1.symbols_compared", compared as u64);
+                if let Some(why) = mism {
+                    if ctx.viol(&["C14", "C02"], "r1-code", "r1/cpu".into(), format!("{}({k},{r},{b}) mask {mask_bits}: {why}", kind.name()), false) {
+                        return;
+                    }
+                }
+                for (i, s) in &restored {
+                    if s != &originals[*i] {
+                        if ctx.viol(&["C14", "C01"], "restores-original-bytes", "restore/cpu".into(), format!("{}({k},{r},{b}) mask {mask_bits}: restored original {i} differs", kind.name()), false) {
+                            return;
+                        }
+                        break;
+                    }
+                }
+                reference = Some((recovery, restored));
+            }
+            Some((rec0, res0)) => {
+                if &recovery != rec0 || &restored != res0 {
+                    ctx.viol(&["C14", "C03"], "cross-engine", format!("cross/cpu-mask/{mask_bits}"), format!("{}({k},{r},{b}): results under reported features avx2={} ssse3={} differ from those under the first mask", kind.name(), mask_bits & 1, mask_bits >> 1 & 1), false);
+                    return;
+                }
+            }
+        }
+    }
+    if ctx.stats.samples.len() < 2 {
+        ctx.stats.samples.push(format!("{}({k},{r},{b}) {} rate, {} of {} shards delivered, all 4 subsets of {{avx2, ssse3}} traced", kind.name(), if high { "high" } else { "low" }, all.len(), k + r));
+    }
+    let _ = Family::Default;
+}
+
+fn isa_rank(isa: usize) -> u32 {
+    match isa {
+        ISA_AVX2 => 2,
+        ISA_SSSE3 => 1,
+        _ => 0,
+    }
+}
